@@ -18,7 +18,7 @@ RULE = ("cases = (beam) random node lines (swept, dihedral, kinked, non-uniform,
         "non-zero displacement and all comparisons evaluated")
 ASSUMPTIONS = ["reference frame element (oasverif/refs/refframe.py), validated against the cantilever closed form in the self test",
                "local-axis convention e2 = e1 x X shared with the repository (matters only for Iy != Iz)"]
-REQUIRED_FAMILIES = ["beam/disp_vs_reference", "beam/equilibrium", "beam/root_clamped", "beam/linearity", "beam/maxwell_betti",
+REQUIRED_FAMILIES = ["pair/disp_vs_reference", "beam/disp_vs_reference", "beam/equilibrium", "beam/root_clamped", "beam/linearity", "beam/maxwell_betti",
                      "beam/rotation_invariance", "closed/tip_force", "closed/tip_moment", "closed/torque", "closed/axial",
                      "alone/disp_vs_reference"]
 LEVEL_TEXT = ("the repository's stiffness assembly and FEM solve are executed on generated beams and loads and compared with "
@@ -77,7 +77,9 @@ def cases(tier, seed):
         if half == "full":
             ny = max(3, ny | 1)
         out.append(dict(kind="beam", ny=ny, half=half, seed=int(rng.integers(1 << 30)), iso=bool(k % 4 == 1),
-                        logE=float(rng.uniform(9, 12)), fem=str(rng.choice(["tube", "wingbox"]))))
+                        logE=float(rng.uniform(9, 12)), fem=str(rng.choice(["tube", "wingbox"])), load_units=["N", "N", "kN", "lbf"][k % 4]))
+    for k in range(8 if tier == "quick" else 60):
+        out.append(dict(kind="pair", ny=int(2 * rng.integers(1, 5) + 1), seed=int(rng.integers(1 << 30)), order=int(k % 2)))
     for k in range(16 if tier == "quick" else 360):
         out.append(dict(kind="closed", ny=int(rng.integers(2, 12)), half="left" if k % 2 else "full", seed=int(rng.integers(1 << 30))))
     for k in range(12 if tier == "quick" else 300):
@@ -94,7 +96,7 @@ def cases(tier, seed):
 
 
 # ---------------------------------------------------------------------------------------------- the real code
-def beam_problem(nodes, sym, E, G, fem="tube"):
+def beam_problem(nodes, sym, E, G, fem="tube", load_units="N"):
     import openmdao.api as om
     from openaerostruct.structures.assemble_k_group import AssembleKGroup
     from openaerostruct.structures.spatial_beam_states import SpatialBeamStates
@@ -110,7 +112,7 @@ def beam_problem(nodes, sym, E, G, fem="tube"):
     ivc.add_output("nodes", val=nodes, units="m")
     for q in ("A", "Iy", "Iz", "J"):
         ivc.add_output(q, val=np.ones(ny - 1), units="m**2" if q == "A" else "m**4")
-    ivc.add_output("loads", val=np.zeros((ny, 6)), units="N")
+    ivc.add_output("loads", val=np.zeros((ny, 6)), units=load_units)  # the user may state the loads in any force unit
     p.model.add_subsystem("ivc", ivc, promotes=["*"])
     p.model.add_subsystem("assembly", AssembleKGroup(surface=surf), promotes=["*"])
     p.model.add_subsystem("states", SpatialBeamStates(surface=surf), promotes_inputs=["local_stiff_transformed", "loads"],
@@ -118,13 +120,14 @@ def beam_problem(nodes, sym, E, G, fem="tube"):
     with warnings.catch_warnings():
         warnings.simplefilter("ignore")
         p.setup()
+    p._load_units = load_units
     return p
 
 
 def solve_oas(p, props, loads):
     for q in ("A", "Iy", "Iz", "J"):
         p.set_val(q, props[q])
-    p.set_val("loads", loads)
+    p.set_val("loads", loads, units="N")  # converted by the framework into the unit the source declares
     zoo.run(p)
     return np.array(p.get_val("disp")).copy()
 
@@ -171,7 +174,8 @@ def run_beam(c, o):
         return
     rt = max(1e-7, 1e3 * np.finfo(float).eps * cond)  # two direct solves cannot agree better than ~cond*eps
     o.info["cond_scaled"] = cond
-    p = beam_problem(nodes, sym, E, G, c["fem"])
+    p = beam_problem(nodes, sym, E, G, c["fem"], load_units=c.get("load_units", "N"))
+    tags.append("loads_in_" + c.get("load_units", "N"))
     u1 = solve_oas(p, props, f1)
     scaled_close(o, "beam/disp_vs_reference", u1, uref, rt)
     # equilibrium of the reported displacements in the independently assembled frame (off the root)
@@ -328,7 +332,32 @@ def run_alone(c, o):
     o.nontrivial = bool(np.abs(u).max() > 0)
 
 
+def run_pair(c, o):
+    """two independent structural problems with the same number of nodes - one half-span, one full-span - are both set up before
+    either is solved; each must still satisfy its own clamped-root equilibrium"""
+    rng = np.random.default_rng(c["seed"])
+    ny = c["ny"]
+    E, G = 7e10, 2.7e10
+    specs = []
+    for half in ("left", "full"):
+        nodes = node_line(rng, ny, half)
+        r = 10 ** rng.uniform(-1.3, -0.7, ny - 1)
+        props = dict(A=np.pi * r**2 * 0.3, Iy=r**4 * 0.5, Iz=r**4 * 0.3, J=r**4 * 0.8)
+        specs.append((half, nodes, props, rand_loads(rng, ny)))
+    order = specs if c["order"] == 0 else specs[::-1]
+    probs = [beam_problem(nodes, half != "full", E, G) for (half, nodes, props, f) in order]  # all set up first
+    for (half, nodes, props, f), p in zip(order, probs):  # ... then solved in the same order
+        sym = half != "full"
+        root = ny - 1 if sym else (ny - 1) // 2
+        u = solve_oas(p, props, f)
+        uref, K = refframe.solve(nodes, E, G, props["A"], props["Iy"], props["Iz"], props["J"], f, root)
+        tags = ["pair", half, "set_up_%s" % ("first" if (half, nodes, props, f) is order[0] else "second")]
+        scaled_close(o, "pair/disp_vs_reference", u, uref, 1e-6, tags=tags, what="%s beam of a pair set up together" % half)
+        o.close("pair/root_clamped", u[root], 0.0, rtol=0, atol=1e-9 * np.abs(u).max(), tags=tags)
+    o.nontrivial = True
+
+
 def run_case(c):
     o = Obs()
-    {"beam": run_beam, "closed": run_closed, "alone": run_alone}[c["kind"]](c, o)
+    {"beam": run_beam, "closed": run_closed, "alone": run_alone, "pair": run_pair}[c["kind"]](c, o)
     return o
